@@ -80,43 +80,6 @@ def genX : Nat → Nat → R → X × R
 def genOX (f lv : Nat) (s : R) : Option X × R :=
   if sel s 3 == 0 then (none, lcg s) else let r := genX f lv (lcg s); (some r.1, r.2)
 
-def genAtom (s : R) : S × R :=
-  let k := sel s 6
-  if k == 0 then (S.empty, lcg s)
-  else if k == 1 then (S.brk, lcg s)
-  else if k == 2 then (S.cont, lcg s)
-  else if k == 3 then (S.ret none, lcg s)
-  else if k == 4 then (S.goto_ "L", lcg s)
-  else let r := genX 2 0 (lcg s); (S.expr r.1, r.2)
-
-/-- a statement; `ifElse` gets a then-branch that does not end in an else-less `if` -/
-def genS : Nat → R → S × R
-  | 0, s => genAtom s
-  | d+1, s =>
-    let s1 := lcg s
-    let k := sel s 14
-    if k == 0 then let r := genX 3 0 s1; (S.expr r.1, r.2)
-    else if k == 1 then let c := genX 2 0 s1; let t := genS d c.2; (S.ifThen c.1 t.1, t.2)
-    else if k == 2 then
-      let c := genX 2 0 s1; let t := genS d c.2; let e := genS d t.2
-      (S.ifElse c.1 (if t.1.openIf then S.block (.cons t.1 .nil) else t.1) e.1, e.2)
-    else if k == 3 then let c := genX 2 0 s1; let b := genS d c.2; (S.while_ c.1 b.1, b.2)
-    else if k == 4 then let b := genS d s1; let c := genX 2 0 b.2; (S.doWhile b.1 c.1, c.2)
-    else if k == 5 then let r := genX 2 0 s1; (S.ret (some r.1), r.2)
-    else if k == 6 then let e := genX 2 2 s1; let b := genS d e.2; (S.case_ e.1 b.1, b.2)
-    else if k == 7 then let b := genS d s1; (S.default_ b.1, b.2)
-    else if k == 8 then
-      let c := genX 2 0 s1
-      let a := genS d c.2; let b := genS d a.2; let e := genX 1 2 b.2
-      (S.switch_ c.1 (S.block (.cons (S.case_ e.1 a.1) (.cons b.1 (.cons (S.default_ S.brk) .nil)))), e.2)
-    else if k == 9 then
-      let i := genOX 2 0 s1; let c := genOX 2 0 i.2; let n := genOX 2 0 c.2; let b := genS d n.2
-      (S.for_ i.1 c.1 n.1 b.1, b.2)
-    else if k == 10 then let b := genS d s1; (S.label (pick ["L", "out", "again"] b.2) b.1, lcg b.2)
-    else if k == 11 then let a := genS d s1; let b := genS d a.2; (S.block (.cons a.1 (.cons b.1 .nil)), b.2)
-    else if k == 12 then (S.block .nil, s1)
-    else genAtom s1
-
 def qualToks : List Tk := [("CONST", "const"), ("VOLATILE", "volatile"), ("RESTRICT", "restrict")]
 
 /-- a named declarator: stars with qualifiers, suffixes, and (sometimes) a parenthesised inner
@@ -177,11 +140,60 @@ def genDcl (storage : Bool) (s : R) : Dcl × R :=
   let m := more n (lcg f.2) []
   ({ specs := sp.1, first := f.1, more := m.1 }, m.2)
 
-def genItems (depth : Nat) : Nat → R → List Item → List Item × R
-  | 0, s, acc => (acc.reverse, s)
-  | k+1, s, acc =>
-    if sel s 3 == 0 then let d := genDcl true (lcg s); genItems depth k d.2 (.decl d.1 :: acc)
-    else let st := genS depth (lcg s); genItems depth k st.2 (.stmt st.1 :: acc)
+def genAtom (s : R) : S × R :=
+  let k := sel s 6
+  if k == 0 then (S.empty, lcg s)
+  else if k == 1 then (S.brk, lcg s)
+  else if k == 2 then (S.cont, lcg s)
+  else if k == 3 then (S.ret none, lcg s)
+  else if k == 4 then (S.goto_ "L", lcg s)
+  else let r := genX 2 0 (lcg s); (S.expr r.1, r.2)
+
+/-- a statement; `ifElse` gets a then-branch that does not end in an else-less `if` -/
+def genS : Nat → R → S × R
+  | 0, s => genAtom s
+  | d+1, s =>
+    let s1 := lcg s
+    let k := sel s 17
+    if k == 0 then let r := genX 3 0 s1; (S.expr r.1, r.2)
+    else if k == 1 then let c := genX 2 0 s1; let t := genS d c.2; (S.ifThen c.1 t.1, t.2)
+    else if k == 2 then
+      let c := genX 2 0 s1; let t := genS d c.2; let e := genS d t.2
+      (S.ifElse c.1 (if t.1.openIf then S.block (.cons t.1 .nil) else t.1) e.1, e.2)
+    else if k == 3 then let c := genX 2 0 s1; let b := genS d c.2; (S.while_ c.1 b.1, b.2)
+    else if k == 4 then let b := genS d s1; let c := genX 2 0 b.2; (S.doWhile b.1 c.1, c.2)
+    else if k == 5 then let r := genX 2 0 s1; (S.ret (some r.1), r.2)
+    else if k == 6 then let e := genX 2 2 s1; let b := genS d e.2; (S.case_ e.1 b.1, b.2)
+    else if k == 7 then let b := genS d s1; (S.default_ b.1, b.2)
+    else if k == 8 then
+      let c := genX 2 0 s1
+      let a := genS d c.2; let b := genS d a.2; let e := genX 1 2 b.2
+      (S.switch_ c.1 (S.block (.cons (S.case_ e.1 a.1) (.cons b.1 (.cons (S.default_ S.brk) .nil)))), e.2)
+    else if k == 9 then
+      let i := genOX 2 0 s1; let c := genOX 2 0 i.2; let n := genOX 2 0 c.2; let b := genS d n.2
+      (S.for_ i.1 c.1 n.1 b.1, b.2)
+    else if k == 10 then let b := genS d s1; (S.label (pick ["L", "out", "again"] b.2) b.1, lcg b.2)
+    else if k == 11 then let a := genS d s1; let b := genS d a.2; (S.block (.cons a.1 (.cons b.1 .nil)), b.2)
+    else if k == 12 then (S.block .nil, s1)
+    else if k == 13 then
+      -- a block that starts with a declaration
+      let dc := genDcl true s1; let a := genS d dc.2
+      (S.block (.consD dc.1 (.cons a.1 .nil)), a.2)
+    else if k == 14 then
+      -- a declaration between statements
+      let a := genS d s1; let dc := genDcl true a.2; let b := genS d dc.2
+      (S.block (.cons a.1 (.consD dc.1 (.cons b.1 .nil))), b.2)
+    else if k == 15 then
+      -- `for` with a declaration as first clause
+      let dc := genDcl false s1; let c := genOX 2 0 dc.2; let n := genOX 2 0 c.2; let b := genS d n.2
+      (S.forD dc.1 c.1 n.1 b.1, b.2)
+    else genAtom s1
+
+def genItems (depth : Nat) : Nat → R → SL × R
+  | 0, s => (.nil, s)
+  | k+1, s =>
+    if sel s 3 == 0 then let d := genDcl true (lcg s); let r := genItems depth k d.2; (.consD d.1 r.1, r.2)
+    else let st := genS depth (lcg s); let r := genItems depth k st.2; (.cons st.1 r.1, r.2)
 
 def genParam (x : String) (s : R) : Param × R :=
   let sp := genSpecs false s
@@ -194,7 +206,7 @@ def genExt (depth : Nat) (idx : Nat) (s : R) : Ext × R :=
   | 0 => let d := genDcl true s1; (.decl d.1, d.2)
   | 1 =>
     let sp := genSpecs true s1
-    let body := genItems depth (sel sp.2 4) (lcg sp.2) []
+    let body := genItems depth (sel sp.2 4) (lcg sp.2)
     (.fdef { specs := sp.1, d := D.fn0 (D.name ("f" ++ toString idx)), body := body.1 }, body.2)
   | _ =>
     let sp := genSpecs true s1
@@ -204,7 +216,7 @@ def genExt (depth : Nat) (idx : Nat) (s : R) : Ext × R :=
       | 0, s, acc => (acc.reverse, s)
       | k+1, s, acc => let p := genParam ("q" ++ toString k) (lcg s); ps k p.2 (p.1 :: acc)
     let rest := ps np (lcg p0.2) []
-    let body := genItems depth (sel rest.2 4) (lcg rest.2) []
+    let body := genItems depth (sel rest.2 4) (lcg rest.2)
     (.fdefp { specs := sp.1, fd := { x := "g" ++ toString idx, params := { first := p0.1, more := rest.1 } }, body := body.1 }, body.2)
 
 def genProgram (depth n : Nat) (s : R) : List Ext × R :=
